@@ -5,4 +5,5 @@ Alpha6 == {<<97>>, <<98>>, <<195, 169>>, <<226, 130, 172>>, <<240, 159, 152, 128
 OpsA == {"index", "slice", "seq", "unary", "cbi", "from"}
 OpsB == {"binary", "replace"}
 OpsC == {"find"}
+OpsU == {"unary"}          \* length, classification, bytes / code points and ITERATION of every string (C18 uses the iteration cases)
 =============================================================================
